@@ -43,43 +43,17 @@ func isTrap(err error) bool { return err != nil && strings.Contains(err.Error(),
 var shape = ug.Shape{Mem: "own", MemLim: ug.Limits{Min: 1, Max: 3}, Tab: "own", TabLim: ug.Limits{Min: 4, Max: 6}, G: "own", H: "own",
 	Inc: "own", Passive: true, FG: true}
 
-func replayOne(id int, b *behaviour, engine string, variant int) common.Result {
-	res := common.Result{ID: id, OK: true}
+// Behaviour is a history of Isolation.tla.
+type Behaviour = behaviour
+
+// ReplayWith runs a history on instances produced by mk (called for instance 1 and for every "inst" step).
+// callCtx yields the context for one guest call and a function to call afterwards (e.g. cancel).
+func ReplayWith(b *behaviour, label string, mk func(i int) (api.Module, error), callCtx func() (context.Context, func())) []common.Fail {
+	res := common.Result{OK: true}
 	ctx := context.Background()
-	mk := func() wazero.RuntimeConfig {
-		cfg := wazero.NewRuntimeConfigInterpreter()
-		if engine == "compiler" {
-			cfg = wazero.NewRuntimeConfigCompiler()
-		}
-		return cfg
-	}
-	vname := []string{"one-runtime", "capFromMax", "two-runtimes-shared-cache"}[variant]
-	var rts []wazero.Runtime
-	var cms []wazero.CompiledModule
-	bin := ug.Build(shape)
-	switch variant {
-	case 0:
-		rts = []wazero.Runtime{wazero.NewRuntimeWithConfig(ctx, mk())}
-	case 1:
-		rts = []wazero.Runtime{wazero.NewRuntimeWithConfig(ctx, mk().WithMemoryCapacityFromMax(true))}
-	case 2:
-		cache := wazero.NewCompilationCache()
-		defer cache.Close(ctx)
-		rts = []wazero.Runtime{wazero.NewRuntimeWithConfig(ctx, mk().WithCompilationCache(cache)), wazero.NewRuntimeWithConfig(ctx, mk().WithCompilationCache(cache))}
-	}
-	for _, rt := range rts {
-		defer rt.Close(ctx)
-		cm, err := rt.CompileModule(ctx, bin)
-		if err != nil {
-			res.AddFail("infra:compile", err.Error())
-			return res
-		}
-		cms = append(cms, cm)
-	}
 	insts := map[int]api.Module{}
 	newInst := func(i int) error {
-		k := (i - 1) % len(rts)
-		mod, err := rts[k].InstantiateModule(ctx, cms[k], wazero.NewModuleConfig().WithName(""))
+		mod, err := mk(i)
 		if err != nil {
 			return err
 		}
@@ -90,8 +64,8 @@ func replayOne(id int, b *behaviour, engine string, variant int) common.Result {
 		return nil
 	}
 	if err := newInst(1); err != nil {
-		res.AddFail("infra:instantiate", err.Error())
-		return res
+		res.AddFail(label+";instantiate", err.Error())
+		return res.Fails
 	}
 	prev := ""
 	for k := range b.Hist {
@@ -100,13 +74,13 @@ func replayOne(id int, b *behaviour, engine string, variant int) common.Result {
 		_ = json.Unmarshal(s.Res, &want)
 		fail := func(what, msg string) {
 			res.Step = k + 1
-			res.AddFail(fmt.Sprintf("engine=%s;%s;%s%s#%s", engine, vname, prev, s.Op, what), fmt.Sprintf("%s/%s step %d %s(%d,%d) on instance %d: %s", engine, vname, k+1, s.Op, s.X, s.Y, s.I, msg))
+			res.AddFail(fmt.Sprintf("%s;%s%s#%s", label, prev, s.Op, what), fmt.Sprintf("%s step %d %s(%d,%d) on instance %d: %s", label, k+1, s.Op, s.X, s.Y, s.I, msg))
 		}
 		switch s.Op {
 		case "inst":
 			if err := newInst(s.I); err != nil {
 				fail("instantiate", err.Error())
-				return res
+				return res.Fails
 			}
 		case "close":
 			if err := insts[s.I].Close(ctx); err != nil {
@@ -124,7 +98,9 @@ func replayOne(id int, b *behaviour, engine string, variant int) common.Result {
 			case "minit", "tinit":
 				args = []uint64{0, 0, 2}
 			}
-			out, err := f.Call(ctx, args...)
+			cctx, after := callCtx()
+			out, err := f.Call(cctx, args...)
+			after()
 			switch w := want.(type) {
 			case string:
 				if w == "trap" && !isTrap(err) {
@@ -145,7 +121,9 @@ func replayOne(id int, b *behaviour, engine string, variant int) common.Result {
 				continue
 			}
 			call := func(name string, args ...uint64) int64 {
-				out, err := mod.ExportedFunction(name).Call(ctx, args...)
+				cctx, after := callCtx()
+				defer after()
+				out, err := mod.ExportedFunction(name).Call(cctx, args...)
 				if err != nil {
 					return -1000
 				}
@@ -179,9 +157,55 @@ func replayOne(id int, b *behaviour, engine string, variant int) common.Result {
 			}
 		}
 		if !res.OK {
-			return res
+			return res.Fails
 		}
 		prev = s.Op + ";"
+	}
+	return res.Fails
+}
+
+// Shape is the module shape all isolation / configuration histories run on.
+var Shape = shape
+
+func replayOne(id int, b *behaviour, engine string, variant int) common.Result {
+	res := common.Result{ID: id, OK: true}
+	ctx := context.Background()
+	mk := func() wazero.RuntimeConfig {
+		cfg := wazero.NewRuntimeConfigInterpreter()
+		if engine == "compiler" {
+			cfg = wazero.NewRuntimeConfigCompiler()
+		}
+		return cfg
+	}
+	vname := []string{"one-runtime", "capFromMax", "two-runtimes-shared-cache"}[variant]
+	var rts []wazero.Runtime
+	var cms []wazero.CompiledModule
+	bin := ug.Build(shape)
+	switch variant {
+	case 0:
+		rts = []wazero.Runtime{wazero.NewRuntimeWithConfig(ctx, mk())}
+	case 1:
+		rts = []wazero.Runtime{wazero.NewRuntimeWithConfig(ctx, mk().WithMemoryCapacityFromMax(true))}
+	case 2:
+		cache := wazero.NewCompilationCache()
+		defer cache.Close(ctx)
+		rts = []wazero.Runtime{wazero.NewRuntimeWithConfig(ctx, mk().WithCompilationCache(cache)), wazero.NewRuntimeWithConfig(ctx, mk().WithCompilationCache(cache))}
+	}
+	for _, rt := range rts {
+		defer rt.Close(ctx)
+		cm, err := rt.CompileModule(ctx, bin)
+		if err != nil {
+			res.AddFail("infra:compile", err.Error())
+			return res
+		}
+		cms = append(cms, cm)
+	}
+	fails := ReplayWith(b, fmt.Sprintf("engine=%s;%s", engine, vname), func(i int) (api.Module, error) {
+		k := (i - 1) % len(rts)
+		return rts[k].InstantiateModule(ctx, cms[k], wazero.NewModuleConfig().WithName(""))
+	}, func() (context.Context, func()) { return ctx, func() {} })
+	for _, f := range fails {
+		res.AddFail(f.Key, f.Msg)
 	}
 	return res
 }
